@@ -40,3 +40,15 @@ def nontrivial_key(op, obs):
 
 def classify(script, result):
     return None
+
+
+def with_node(obs_class_fn, key_fn):
+    """dispatch node-suite operations (they all start with 'n') to the node versions"""
+    node_oc, node_key = obs_class, nontrivial_key
+
+    def oc(op, obs):
+        return node_oc(op, obs) if op.startswith("n") and not op.startswith("netmask") else obs_class_fn(op, obs)
+
+    def key(op, obs):
+        return node_key(op, obs) if op.startswith("n") and not op.startswith("netmask") else key_fn(op, obs)
+    return oc, key
